@@ -511,7 +511,10 @@ class SecureFilename(Stream):
             return "output contains whitespace or a path separator"
         if r.startswith("."):
             return f"output {r!r} starts with a dot"
-        again = secure_filename(r)
+        try:
+            again = secure_filename(r)
+        except Exception as e:  # noqa: BLE001
+            return f"secure_filename raised {type(e).__name__} on its own output {r!r}"
         if again != r:
             return f"not idempotent: {r!r} -> {again!r}"
         return None
